@@ -1,6 +1,7 @@
-(* C18, trie part: what is machine-checked about iterators on the trie.  The statements below are refutations of
-   the full property on the faithful model (each replayed on the real library, reports/maptrie.md); they define
-   the two known findings whose guards the monitor of vlib/maptrie.py evaluates on every script:
+(* C18, trie part: what is machine-checked about iterators on the trie.  The ..._refuted statements are about the
+   code BEFORE fixes/C18-trie-removed-parked.patch and fixes/C18-trie-split-keeps-node.patch (FX_REPO; each witness
+   was replayed on the real library, reports/maptrie.md); the ..._repaired statements show the same histories on
+   the repaired code (FX_ALL).  The guards the monitor of vlib/maptrie.py evaluates on every script:
      C18-trie-removed-parked : get / put / rm (or another iterator) reaches a key that was removed while an
                                iterator is parked on it
      C18-trie-split-parked   : an insertion splits the node an iterator is parked on (guard_split)
@@ -13,14 +14,14 @@ Import ListNotations.
 
 (* a removed-but-parked key is still returned by get, and a put on it is lost when the iterator moves on *)
 Theorem C18T_removed_parked_key_refuted :
-  outs_of true w_zombie = [RUnit; RUnit; RKV (Some (Some kabc, Some 1)); RInt TRIE_QB_TRUE; RVal (Some 1); RUnit;
+  outs_of FX_REPO w_zombie = [RUnit; RUnit; RKV (Some (Some kabc, Some 1)); RInt TRIE_QB_TRUE; RVal (Some 1); RUnit;
                            RKV None; RUnit; RVal None; RInt 0].
 Proof. exact removed_parked_refuted. Qed.
 Print Assumptions C18T_removed_parked_key_refuted.
 
 (* a second rm of it succeeds again and frees the node under the iterator: freed memory is read *)
 Theorem C18T_no_freed_memory_refuted :
-  snd (run true trie_init [OPut kabc 1; OIterCreate 0 None; OIterNext 0; ORm kabc; ORm kabc; OIterNext 0])
+  snd (run FX_REPO trie_init [OPut kabc 1; OIterCreate 0 None; OIterNext 0; ORm kabc; ORm kabc; OIterNext 0])
   = Err (UseAfterFree 1).
 Proof. exact removed_parked_uaf_refuted. Qed.
 Print Assumptions C18T_no_freed_memory_refuted.
@@ -28,9 +29,9 @@ Print Assumptions C18T_no_freed_memory_refuted.
 (* an insertion under an iterator that splits the parked node strands the iterator's reference: once the
    iterator is gone rm succeeds but the key stays (get returns the value, count is off) *)
 Theorem C18T_dictionary_after_iterators_refuted :
-  outs_of true w_split = [RUnit; RUnit; RKV (Some (Some kabc, Some 1)); RUnit; RKV (Some (Some kabc, Some 1));
+  outs_of FX_REPO w_split = [RUnit; RUnit; RKV (Some (Some kabc, Some 1)); RUnit; RKV (Some (Some kabc, Some 1));
                           RKV (Some (Some kabd, Some 2)); RKV None; RUnit; RInt TRIE_QB_TRUE; RVal (Some 1); RInt 1] /\
-  guard_split (match snd (run true trie_init [OPut kabc 1; OIterCreate 0 None; OIterNext 0]) with Ok t => t | Err _ => trie_init end)
+  guard_split (match snd (run FX_REPO trie_init [OPut kabc 1; OIterCreate 0 None; OIterNext 0]) with Ok t => t | Err _ => trie_init end)
               (OPut kabd 2) = false.
 Proof. exact split_parked_refuted. Qed.
 Print Assumptions C18T_dictionary_after_iterators_refuted.
@@ -38,9 +39,34 @@ Print Assumptions C18T_dictionary_after_iterators_refuted.
 (* an insertion that splits the root node of an open prefix iterator above the end of the prefix makes the
    iterator return a key without the prefix ("abx" for prefix "abc") *)
 Theorem C18T_prefix_restriction_under_insertion_refuted :
-  outs_of true w_split_root = [RUnit; RUnit; RUnit; RKV (Some (Some [97;98;99;100], Some 1)); RUnit;
+  outs_of FX_REPO w_split_root = [RUnit; RUnit; RUnit; RKV (Some (Some [97;98;99;100], Some 1)); RUnit;
                                RKV (Some (Some [97;98;99;101], Some 2)); RKV (Some (Some [97;98;120], Some 3)); RKV None] /\
-  guard_split_root (match snd (run true trie_init (firstn 4 w_split_root)) with Ok t => t | Err _ => trie_init end)
+  guard_split_root (match snd (run FX_REPO trie_init (firstn 4 w_split_root)) with Ok t => t | Err _ => trie_init end)
                    (OPut [97;98;120] 3) = false.
 Proof. exact split_prefix_root_refuted. Qed.
 Print Assumptions C18T_prefix_restriction_under_insertion_refuted.
+
+(* ---------- the repaired code (FX_ALL) on the same histories ---------- *)
+Theorem C18T_removed_parked_key_repaired :
+  outs_of FX_ALL w_zombie = [RUnit; RUnit; RKV (Some (Some kabc, Some 1)); RInt TRIE_QB_TRUE; RVal None; RUnit;
+                             RKV None; RUnit; RVal (Some 9); RInt 1].
+Proof. exact removed_parked_repaired. Qed.
+Print Assumptions C18T_removed_parked_key_repaired.
+
+Theorem C18T_second_rm_refused_repaired :
+  outs_of FX_ALL [OPut kabc 1; OIterCreate 0 None; OIterNext 0; ORm kabc; ORm kabc; OIterNext 0; OIterFree 0; OCount]
+  = [RUnit; RUnit; RKV (Some (Some kabc, Some 1)); RInt TRIE_QB_TRUE; RInt TRIE_QB_FALSE; RKV None; RUnit; RInt 0].
+Proof. exact removed_parked_uaf_repaired_outs. Qed.
+Print Assumptions C18T_second_rm_refused_repaired.
+
+Theorem C18T_split_of_parked_node_repaired :
+  outs_of FX_ALL w_split = [RUnit; RUnit; RKV (Some (Some kabc, Some 1)); RUnit; RKV (Some (Some kabd, Some 2));
+                            RKV None; RKV None; RUnit; RInt TRIE_QB_TRUE; RVal None; RInt 1].
+Proof. exact split_parked_repaired. Qed.
+Print Assumptions C18T_split_of_parked_node_repaired.
+
+Theorem C18T_split_of_prefix_root_repaired :
+  outs_of FX_ALL w_split_root = [RUnit; RUnit; RUnit; RKV (Some (Some [97;98;99;100], Some 1)); RUnit;
+                                 RKV (Some (Some [97;98;99;101], Some 2)); RKV None; RKV None].
+Proof. exact split_prefix_root_repaired. Qed.
+Print Assumptions C18T_split_of_prefix_root_repaired.
